@@ -82,6 +82,8 @@ func (b *proxyIDRingBuffer) Append(proxyID int64, sourceShard history.ClusterSha
 				}
 				expected++
 			}
+			// the holes may have filled the buffer: make room for the entry itself
+			b.ensureCapacity()
 		}
 	}
 	pos := (b.head + b.size) % len(b.entries)
